@@ -77,7 +77,7 @@ inline void gen_dtd_cm(std::vector<GCase>& out, bool thorough) {
     for (int op = 0; op < 2; op++) for (int n1 = 0; n1 < 3; n1++) for (int n2 = 0; n2 < 3; n2++) for (int o1 = 0; o1 < 4; o1++) for (int o2 = 0; o2 < 4; o2++) for (int go = 0; go < 4; go++) {
         if (!thorough) {
             if (!((n1 == 0 && n2 == 1) || (n1 == 0 && n2 == 0))) continue;
-            if (o1 == 1 || o2 == 3) continue;          // leaf occurrences {none,*,+} x {none,?,*}
+            if (o1 == 1 || o2 == 3 || go == 1) continue;          // leaf occurrences {none,*,+} x {none,?,*}, group occurrences {none,*,+}
         }
         std::string m = std::string("(") + names[n1] + DOCC[o1] + (op ? "|" : ",") + names[n2] + DOCC[o2] + ")" + DOCC[go];
         out.push_back(dtd_cm_case(m, m));
@@ -293,9 +293,10 @@ inline void gen_xsd_particle(std::vector<GCase>& out, bool thorough) {
     const char* comps[2] = {"sequence", "choice"};
     for (int t = 0; t < 2; t++) {
         Ns ns{t == 0};
-        int nOcc = thorough ? 7 : 5;
+        int nOcc = thorough ? 7 : 4;
         for (int c = 0; c < 2; c++) for (int g = 0; g < nOcc; g++) for (int k = 0; k < 8; k++) for (int o = 0; o < nOcc; o++) {
             if (!thorough && t == 1 && !(k == 0 || k == 3 || k == 5)) continue;
+            if (!thorough && g >= 2 && o >= 2 && (k % 2)) continue;
             out.push_back(particle_case(ns, comps[c], OCCS[g], {{k, OCCS[o]}}));
         }
         // all groups
@@ -306,7 +307,7 @@ inline void gen_xsd_particle(std::vector<GCase>& out, bool thorough) {
         // two leaves (UPA-violating combinations are rejected at load time and counted as such)
         int nO2 = thorough ? 4 : 2;
         for (int c = 0; c < 2; c++) for (int g = 0; g < (thorough ? 3 : 1); g++) for (int k1 = 0; k1 < 8; k1++) for (int k2 = 0; k2 < 8; k2++) for (int o1 = 0; o1 < nO2; o1++) for (int o2 = 0; o2 < nO2; o2++) {
-            if (!thorough && (t == 1 || !(k1 == 0 || k2 == 0 || k1 == k2))) continue;
+            if (!thorough && (t == 1 || !(k1 == 0 || k2 == 0))) continue;
             out.push_back(particle_case(ns, comps[c], OCCS[g == 0 ? 0 : g == 1 ? 2 : 4], {{k1, OCCS[o1]}, {k2, OCCS[o2]}}));
         }
     }
